@@ -6,7 +6,8 @@
     MkdirAll / ReadFile / Reader session / ReadDir / IsExist / Remove / RemoveAll / Copy*;
     [step ar t st] is one atomic region of thread [t] (None = blocked or finished), [run ar sched]
     runs an arbitrary schedule [sched : list tid], skipping disabled steps.  [ar] is the
-    atomic_remove switch: [true] = the code as it is now, [false] = the code before 8463491.
+    code flavour: [cur] = the code as it is now; [before_288e3e2] = Writer inserts a new file
+    before locking it; [before_8463491] = additionally the non-atomic Remove (F28).
     Initial states: [boot s0 progs] with [s0] any quiescent heap accepted by the executable
     check [good_shared] (the empty filespace [empty_shared], or anything built by [setup]).
 
@@ -30,28 +31,48 @@ Theorem C09_index_consistent : forall ar s0 progs sched,
 Proof. exact index_consistent. Qed.
 Print Assumptions C09_index_consistent.
 
-(** Values.  [vals_of] = contents of the initial files, every value passed to a WriteFile, the
-    concatenation of the chunks of every Writer session, and the empty value for Writer sessions
-    (Writer inserts a NEW file empty and takes its data lock in a later step: the empty file is
-    visible in between).  In every reachable state a file on which no handle is open holds one
-    of these values, whole; every ReadFile / Reader session returned one. *)
+(** Values.  [vals_of fl] = contents of the initial files, every value passed to a WriteFile, the
+    concatenation of the chunks of every Writer session — and, ONLY in the flavours before 288e3e2
+    ([lock_first fl = false]), the empty value for Writer sessions.  In every reachable state a
+    file on which no handle is open holds one of these values, whole; every ReadFile / Reader
+    session returned one.  For the current code ([cur]) there is no exception for the empty
+    value: see the corollary and [C09_ex_no_empty_value]. *)
 Theorem C09_values : forall ar s0 progs sched,
   good_shared s0 = true ->
-  let V := vals_of (boot s0 progs) in
+  let V := vals_of ar (boot s0 progs) in
   let st := run ar sched (boot s0 progs) in
   (forall f fo, nth_error (files (sh st)) f = Some fo -> f_holder fo = None -> In (f_data fo) V) /\
   (forall t o v, In (o, QData v) (results_of st t) -> In v V).
 Proof. exact values. Qed.
 Print Assumptions C09_values.
 
-(** Finding (current code): the empty value above is really observable.  Writer [x] on a new
-    file ∥ ReadFile x: the reader returns the empty content although only [1;2] is ever written. *)
+(** The current code: every read result is an initial content, a WriteFile argument or the
+    complete concatenation of a Writer session's chunks. *)
+Theorem C09_values_current : forall s0 progs sched t o v,
+  good_shared s0 = true ->
+  In (o, QData v) (results_of (run cur sched (boot s0 progs)) t) ->
+  In v (map f_data (files s0)) \/
+  exists l p, In p progs /\ In l p /\
+    match l with CWrite _ d => v = d | CWriter _ c => v = concat c | _ => False end.
+Proof. exact values_current. Qed.
+Print Assumptions C09_values_current.
+
+(** Regression witness for 288e3e2 (flavour [before_288e3e2]): Writer [x] on a new file ∥
+    ReadFile x: the reader returns the empty content although only [1;2] is ever written. *)
 Theorem C09_writer_creation_window_refuted :
-  let st := run true sched_writer_window st_writer_window in
+  let st := run before_288e3e2 sched_writer_window st_writer_window in
   final st = true /\ results_of st 1 = [(CRead [nX], QData [])] /\
   results_of st 0 = [(CWriter [nX] [[1];[2]], QOk)] /\ lookup (abs (sh st)) [nX] = Some (F [1;2]).
 Proof. exact writer_creation_window. Qed.
 Print Assumptions C09_writer_creation_window_refuted.
+
+(** ... and on the current code, for ALL schedules of that configuration, the reader gets an
+    error (file not there yet) or the whole value. *)
+Theorem C09_writer_window_closed : forall sched,
+  (forall t, step cur t (run cur sched st_writer_window) = None) ->
+  window_closed (run cur sched st_writer_window) = true.
+Proof. exact writer_window_closed. Qed.
+Print Assumptions C09_writer_window_closed.
 
 (** The F28 family: a directory d that exists before the race (empty, or holding a
     sub-directory, or holding a file; at the root or below another directory), one thread
@@ -62,7 +83,7 @@ Print Assumptions C09_writer_creation_window_refuted.
     (Model/Fs.v), whatever the results are (not only when both are nil). *)
 Theorem C09_remove_create_serialisable : forall sc sched,
   In sc f28_scenarios ->
-  let st := run true sched (sc_init sc) in
+  let st := run cur sched (sc_init sc) in
   final st = true -> sc_explained sc st = true.
 Proof. exact remove_create_serialisable. Qed.
 Print Assumptions C09_remove_create_serialisable.
@@ -72,7 +93,7 @@ Print Assumptions C09_remove_create_serialisable.
     writer: lock, insert.  Both return nil, d/x and d are absent: neither order explains it. *)
 Theorem C09_F28_refuted :
   In sc_f28 f28_scenarios /\
-  let st := run false sched_f28 (sc_init sc_f28) in
+  let st := run before_8463491 sched_f28 (sc_init sc_f28) in
   final st = true /\ both_ok st = true /\ sc_explained sc_f28 st = false /\
   lookup (abs (sh st)) [nD; nX] = None /\ lookup (abs (sh st)) [nD] = None.
 Proof. exact F28_refuted. Qed.
@@ -81,7 +102,7 @@ Print Assumptions C09_F28_refuted.
 (** The same schedule on the current code: the writer gets errDirRemoved, starts again from the
     root, and the file is there. *)
 Theorem C09_F28_fixed_same_schedule :
-  let st := run true (sched_f28 ++ [1;1;1;1;1;1]%nat) (sc_init sc_f28) in
+  let st := run cur (sched_f28 ++ [1;1;1;1;1;1]%nat) (sc_init sc_f28) in
   final st = true /\ both_ok st = true /\ sc_explained sc_f28 st = true /\
   lookup (abs (sh st)) [nD; nX] = Some (F [5;6]).
 Proof. exact F28_fixed_same_schedule. Qed.
@@ -90,7 +111,7 @@ Print Assumptions C09_F28_fixed_same_schedule.
 (** Why linearizability is not claimed (current code): Remove d ∥ MkdirAll d/y with d ABSENT
     initially; both return nil, d/y exists, and no sequential order does that. *)
 Theorem C09_mkdir_p_not_atomic :
-  let st := run true sched_mkdir_p (sc_init sc_mkdir_p) in
+  let st := run cur sched_mkdir_p (sc_init sc_mkdir_p) in
   final st = true /\ both_ok st = true /\ sc_explained sc_mkdir_p st = false.
 Proof. exact mkdir_p_not_atomic. Qed.
 Print Assumptions C09_mkdir_p_not_atomic.
@@ -110,8 +131,8 @@ Theorem C09_create_once_partial :
      nth_error (dirs (sh (run ar sched (boot s0 progs)))) d = Some o ->
      (length (filter (fun e => bytes_eqb (fst e) n) (d_ch o)) <= 1)%nat) /\
   (forall c sched, In c co_configs ->
-     (forall t, step true t (run true sched (fst c)) = None) ->
-     snd c (run true sched (fst c)) = true).
+     (forall t, step cur t (run cur sched (fst c)) = None) ->
+     snd c (run cur sched (fst c)) = true).
 Proof. exact (conj create_once_unique create_once_instances). Qed.
 Print Assumptions C09_create_once_partial.
 
@@ -148,8 +169,8 @@ Print Assumptions C09_no_panic.
     (lock holder is always at an enabled program counter) is not proved; termination of the
     retry loops needs scheduler fairness and is not modelled. *)
 Theorem C09_no_stuck_partial : forall sc sched,
-  In sc f28_scenarios -> (forall t, step true t (run true sched (sc_init sc)) = None) ->
-  final (run true sched (sc_init sc)) = true.
+  In sc f28_scenarios -> (forall t, step cur t (run cur sched (sc_init sc)) = None) ->
+  final (run cur sched (sc_init sc)) = true.
 Proof. exact no_stuck_f28. Qed.
 Print Assumptions C09_no_stuck_partial.
 
@@ -166,16 +187,20 @@ Proof. vm_compute. split; reflexivity. Qed.
 (** a final state of an F28 scenario in which both calls returned nil exists (the theorem is not
     vacuous): remover first, then the creator *)
 Example C09_ex_final :
-  let st := run true (repeat 0%nat 5 ++ repeat 1%nat 12) (sc_init sc_f28) in
+  let st := run cur (repeat 0%nat 5 ++ repeat 1%nat 12) (sc_init sc_f28) in
   final st = true /\ both_ok st = true.
 Proof. vm_compute. split; reflexivity. Qed.
 
 Example C09_ex_no_remove :
   forallb (forallb (fun o => negb (is_remove o)))
     [[CWrite [nD; nX] [5;6]; CList [nD]]; [CCopy CAny [nT] [nD; nY]]; [CMkdir [nD; nE; nY]]] = true /\
-  walk_root (sh (run true (repeat 0%nat 6) (boot (setup [CMkdir [nD]]) [[CWrite [nD; nX] [5;6]]]))) [nD; nX]
+  walk_root (sh (run cur (repeat 0%nat 6) (boot (setup [CMkdir [nD]]) [[CWrite [nD; nX] [5;6]]]))) [nD; nX]
   = Some (RFile 0).
 Proof. vm_compute. split; reflexivity. Qed.
 
 Example C09_ex_co : length co_configs = 5%nat.
 Proof. reflexivity. Qed.
+
+Example C09_ex_no_empty_value :
+  vals_of cur st_writer_window = [[1;2]] /\ vals_of before_288e3e2 st_writer_window = [[1;2]; []].
+Proof. vm_compute. split; reflexivity. Qed.
